@@ -78,12 +78,27 @@ Fixpoint after_last_blank (o : opt) (l : list assignment) : option (list assignm
 (* the documented default: what DefaultConfiguration() and the setDefault calls give an option *)
 Definition documented_default (sch : schema) (o : opt) : list str := apply_late sch (init_cfg sch) o.
 
+(* what the files give a repeated option: the values accumulated in read order after the last blank reset *)
+Definition accumulated_l (o : opt) (l : list assignment) : list str :=
+  match after_last_blank o l with Some suf => vals o suf | None => vals o l end.
+Definition accumulated (o : opt) (srcs : list file) : list str := accumulated_l o (concat srcs).
+Definition layered (srcs : list file) : cfg := fun o => accumulated o srcs.
+
+(* the default of an option that no source sets.  Third kind of default (build.path): computed from the layered value
+   of the trigger options and the environment of the caller - $PATH split at ':' when PATH is passed through
+   (listed in build.passenv / build.passunsafeenv by the files), else the documented fallback. *)
+Definition default_of (sch : schema) (srcs : list file) (o : opt) : list str :=
+  match assoc o (computed sch) with
+  | Some cd => computed_value sch (layered srcs) cd
+  | None => documented_default sch o
+  end.
+
 Definition spec_files (sch : schema) (o : opt) (srcs : list file) : list str :=
   match o with
   | Single _ _ =>
       match highest o srcs with
-      | Some f => match last_on o f with Some a => [value_of a] | None => documented_default sch o end
-      | None => documented_default sch o                  (* no source sets it *)
+      | Some f => match last_on o f with Some a => [value_of a] | None => default_of sch srcs o end
+      | None => default_of sch srcs o                     (* no source sets it *)
       end
   | Multi _ =>
       let l := concat srcs in                             (* accumulate across the files in order *)
@@ -92,7 +107,7 @@ Definition spec_files (sch : schema) (o : opt) (srcs : list file) : list str :=
         | Some suf => vals o suf                          (* a blank clears everything before it *)
         | None => vals o l
         end
-      else documented_default sch o
+      else default_of sch srcs o                          (* a default only if NO source sets it *)
   end.
 
 Fixpoint last_override (o : opt) (ovs : list override) : option str :=
@@ -111,13 +126,16 @@ Definition spec_value (sch : schema) (o : opt) (srcs : list file) (ovs : list ov
   end.
 
 (* ---- the known defect classes, as an executable classifier ---- *)
-Inductive defect := BlankResetDefault | PresetListKept | DerivedOverwrite.
+Inductive defect := BlankResetDefault | PresetListKept | DerivedOverwrite | AliasAppended.
 
 Definition flat (srcs : list file) : list assignment := concat srcs.
 
-(* state after the files and the setDefault calls, before GoTool is derived *)
+(* state after the files *)
+Definition rawcfg (sch : schema) (srcs : list file) : cfg := fold_left apply_file srcs (init_cfg sch).
+
+(* state after the files, the setDefault calls and setBuildPath, before GoTool is derived *)
 Definition pre (sch : schema) (srcs : list file) : cfg :=
-  apply_late sch (fold_left apply_file srcs (init_cfg sch)).
+  apply_computed sch (rawcfg sch srcs) (apply_late sch (rawcfg sch srcs)).
 
 Definition empty_scalar (v : list str) : bool := match v with [[]] => true | _ => false end.
 
@@ -130,30 +148,60 @@ Definition derive_hits (sch : schema) (srcs : list file) (o : opt) : bool :=
 Definition late_of (sch : schema) (o : opt) : list str :=
   match assoc o (late sch) with Some d => d | None => [] end.
 
+(* the element appended to dst when cond is false (cpp.coverage -> test.disablecoverage) *)
+Definition append_hits (sch : schema) (srcs : list file) (o : opt) : bool :=
+  match appended sch with
+  | Some (cond, dst, _) => opt_eqb o dst && is_false (apply_derive sch (pre sch srcs) cond)
+  | None => false
+  end.
+
+Definition post_hits (sch : schema) (srcs : list file) (o : opt) : bool :=
+  derive_hits sch srcs o || append_hits sch srcs o.
+
+(* what an option left empty by the files ends up with: its setDefault value, else its computed default *)
+Definition fallback_of (sch : schema) (srcs : list file) (o : opt) : list str :=
+  let d := late_of sch o in
+  match assoc o (computed sch) with
+  | Some cd => if is_nil d then computed_value sch (rawcfg sch srcs) cd else d
+  | None => d
+  end.
+
 Definition defect_class (sch : schema) (srcs : list file) (ovs : list override) (o : opt) : option defect :=
   match last_override o ovs with
   | Some _ => None
   | None =>
       if derive_hits sch srcs o then Some DerivedOverwrite else
+      if append_hits sch srcs o then Some AliasAppended else
       match o with
       | Single _ _ => None
       | Multi _ =>
           let l := flat srcs in
           if mentions o l then
             match after_last_blank o l with
-            | Some suf => if is_nil (vals o suf) && negb (is_nil (late_of sch o)) then Some BlankResetDefault else None
+            | Some suf => if is_nil (vals o suf) && negb (is_nil (fallback_of sch srcs o)) then Some BlankResetDefault else None
             | None => if is_nil (init_cfg sch o) then None else Some PresetListKept
             end
           else None
       end
   end.
 
+Definition is_none {A} (x : option A) : bool := match x with None => true | _ => false end.
+
+(* a computed default belongs to a repeated option without any other default, and reads repeated options that
+   have no (non-empty) default of their own - so reading them before or after the setDefault calls is the same *)
+Definition wf_computed (sch : schema) : bool :=
+  forallb (fun e =>
+    is_multi (fst e) && is_none (assoc (fst e) (late sch)) && is_nil (init_cfg sch (fst e))
+    && forallb (fun t => is_multi (fst t) && is_nil (init_cfg sch (fst t)) && is_nil (late_of sch (fst t)))
+               (cd_triggers (snd e)))
+    (computed sch).
+
 (* the option a derived value is computed from has no default of its own (GoRoot) *)
 Definition wf_schema (sch : schema) : Prop :=
   match derive sch with
   | Some (src, dst) => documented_default sch src = [[]] /\ src <> dst /\ is_multi src = false
   | None => True
-  end.
+  end /\ wf_computed sch = true.
 
 (* ================================================================================================ *)
 (* 3. Lemmas about one stream of assignments                                                         *)
@@ -325,35 +373,128 @@ Lemma effective_inv sch fs filenames profiles ovs c :
   effective sch fs filenames profiles ovs = Some c ->
   let srcs := sources fs (read_order filenames profiles) in
   forallb assign_ok (flat srcs) = true /\
-  c = fold_left apply_override ovs (apply_derive sch (pre sch srcs)).
+  c = fold_left apply_override ovs (apply_append sch (apply_derive sch (pre sch srcs))).
 Proof.
-  unfold effective, read_config, pre, flat. cbn zeta.
+  unfold effective, read_config, pre, rawcfg, flat. cbn zeta.
   rewrite forallb_concat.
   destruct (forallb assign_ok (concat (sources fs (read_order filenames profiles)))); [|discriminate].
   intros [= <-]. split; reflexivity.
 Qed.
 
+(* what the setDefault call and then setBuildPath make of the value `raw` the files left in o *)
+Definition fill (sch : schema) (srcs : list file) (o : opt) (raw : list str) : list str :=
+  let r1 := match assoc o (late sch) with Some d => if is_nil raw then d else raw | None => raw end in
+  match assoc o (computed sch) with
+  | Some cd => if is_nil r1 then computed_value sch (rawcfg sch srcs) cd else r1
+  | None => r1
+  end.
+
+Lemma pre_fill sch srcs o : pre sch srcs o = fill sch srcs o (rawcfg sch srcs o).
+Proof. reflexivity. Qed.
+
+(* a value the files leave non-empty is never replaced by a default of any kind *)
+Lemma fill_nonnil sch srcs o raw : raw <> [] -> fill sch srcs o raw = raw.
+Proof.
+  intros H. unfold fill. destruct raw as [|x r]; [congruence|]. cbn [is_nil].
+  destruct (assoc o (late sch)); destruct (assoc o (computed sch)); reflexivity.
+Qed.
+
+Lemma fill_nil sch srcs o : fill sch srcs o [] = fallback_of sch srcs o.
+Proof. unfold fill, fallback_of, late_of. cbn [is_nil]. destruct (assoc o (late sch)); reflexivity. Qed.
+
+Lemma raw_single sch srcs k n :
+  forallb assign_ok (flat srcs) = true ->
+  rawcfg sch srcs (Single k n) =
+    match last_on (Single k n) (flat srcs) with Some a => [value_of a] | None => init_cfg sch (Single k n) end.
+Proof. intros Hok. unfold rawcfg. rewrite fold_files. fold (flat srcs). now rewrite fold_single by exact Hok. Qed.
+
+Lemma raw_multi sch srcs n :
+  rawcfg sch srcs (Multi n) =
+    match after_last_blank (Multi n) (flat srcs) with
+    | Some suf => vals (Multi n) suf
+    | None => init_cfg sch (Multi n) ++ vals (Multi n) (flat srcs)
+    end.
+Proof. unfold rawcfg. rewrite fold_files. fold (flat srcs). now rewrite fold_multi. Qed.
+
 Lemma pre_value sch srcs o :
   forallb assign_ok (flat srcs) = true ->
   pre sch srcs o =
-    let raw := match o with
-               | Single k n => match last_on o (flat srcs) with Some a => [value_of a] | None => init_cfg sch o end
-               | Multi n => match after_last_blank o (flat srcs) with
-                            | Some suf => vals o suf
-                            | None => init_cfg sch o ++ vals o (flat srcs)
-                            end
-               end in
-    match assoc o (late sch) with Some d => if is_nil raw then d else raw | None => raw end.
+    fill sch srcs o
+      match o with
+      | Single k n => match last_on o (flat srcs) with Some a => [value_of a] | None => init_cfg sch o end
+      | Multi n => match after_last_blank o (flat srcs) with
+                   | Some suf => vals o suf
+                   | None => init_cfg sch o ++ vals o (flat srcs)
+                   end
+      end.
 Proof.
-  intros Hok. unfold pre, apply_late. rewrite fold_files. fold (flat srcs).
-  destruct o as [k n|n]; [rewrite fold_single by exact Hok|rewrite fold_multi]; reflexivity.
+  intros Hok. rewrite pre_fill. destruct o as [k n|n]; [now rewrite raw_single by exact Hok|now rewrite raw_multi].
 Qed.
 
-Lemma pre_not_mentioned sch srcs o :
-  mentions o (flat srcs) = false -> pre sch srcs o = documented_default sch o.
+(* a repeated option that is not pre-filled holds, after the files, exactly the accumulated values *)
+Lemma raw_accumulated sch srcs n :
+  init_cfg sch (Multi n) = [] -> rawcfg sch srcs (Multi n) = accumulated (Multi n) srcs.
 Proof.
-  intros H. unfold pre, documented_default, apply_late. rewrite fold_files. fold (flat srcs).
-  now rewrite not_mentioned_fold.
+  intros Hi. rewrite raw_multi. unfold accumulated, accumulated_l, flat.
+  destruct (after_last_blank (Multi n) (concat srcs)); [reflexivity|now rewrite Hi].
+Qed.
+
+Lemma assoc_in {A} o (l : list (opt * A)) v : assoc o l = Some v -> In (o, v) l.
+Proof.
+  induction l as [|[k x] r IH]; cbn [assoc]; [discriminate|].
+  destruct (opt_eqb_spec o k) as [->|Hne]; [intros [= ->]; now left|intros H; right; now apply IH].
+Qed.
+
+Lemma existsb_ext_in {A} (f g : A -> bool) l : (forall x, In x l -> f x = g x) -> existsb f l = existsb g l.
+Proof.
+  induction l as [|a r IH]; intros H; cbn [existsb]; [reflexivity|].
+  rewrite (H a (or_introl eq_refl)), IH; [reflexivity|]. intros x Hx. apply H. now right.
+Qed.
+
+Lemma wf_computed_entry sch o cd :
+  wf_computed sch = true -> assoc o (computed sch) = Some cd ->
+  is_multi o = true /\ assoc o (late sch) = None /\ init_cfg sch o = [] /\
+  forall t, In t (cd_triggers cd) -> is_multi (fst t) = true /\ init_cfg sch (fst t) = [].
+Proof.
+  intros Hwf Ha. apply assoc_in in Ha. unfold wf_computed in Hwf.
+  rewrite forallb_forall in Hwf. specialize (Hwf _ Ha). cbn [fst snd] in Hwf.
+  apply andb_true_iff in Hwf as [Hwf Ht]. apply andb_true_iff in Hwf as [Hwf Hi].
+  apply andb_true_iff in Hwf as [Hm Hl].
+  repeat split.
+  - exact Hm.
+  - destruct (assoc o (late sch)); [discriminate|reflexivity].
+  - destruct (init_cfg sch o); [reflexivity|discriminate].
+  - rewrite forallb_forall in Ht. specialize (Ht _ H). apply andb_true_iff in Ht as [Ht _].
+    now apply andb_true_iff in Ht as [Ht _].
+  - rewrite forallb_forall in Ht. specialize (Ht _ H). apply andb_true_iff in Ht as [Ht _].
+    apply andb_true_iff in Ht as [_ Ht]. destruct (init_cfg sch (fst t)); [reflexivity|discriminate].
+Qed.
+
+(* setBuildPath sees the trigger options as the documented layering leaves them *)
+Lemma triggered_layered sch srcs o cd :
+  wf_computed sch = true -> assoc o (computed sch) = Some cd ->
+  triggered (rawcfg sch srcs) cd = triggered (layered srcs) cd.
+Proof.
+  intros Hwf Ha. destruct (wf_computed_entry _ _ _ Hwf Ha) as [_ [_ [_ Ht]]].
+  unfold triggered. apply existsb_ext_in. intros t Hin. destruct (Ht _ Hin) as [Hm Hi].
+  unfold layered. destruct (fst t) as [k n|n]; [discriminate|]. now rewrite raw_accumulated.
+Qed.
+
+Lemma computed_value_layered sch srcs o cd :
+  wf_computed sch = true -> assoc o (computed sch) = Some cd ->
+  computed_value sch (rawcfg sch srcs) cd = computed_value sch (layered srcs) cd.
+Proof. intros Hwf Ha. unfold computed_value. now rewrite (triggered_layered _ _ _ _ Hwf Ha). Qed.
+
+Lemma pre_not_mentioned sch srcs o :
+  wf_computed sch = true ->
+  mentions o (flat srcs) = false -> pre sch srcs o = default_of sch srcs o.
+Proof.
+  intros Hwf H. rewrite pre_fill. unfold rawcfg. rewrite fold_files. fold (flat srcs).
+  rewrite not_mentioned_fold by exact H. unfold fill, default_of.
+  destruct (assoc o (computed sch)) as [cd|] eqn:Hc.
+  - destruct (wf_computed_entry _ _ _ Hwf Hc) as [_ [Hl [Hi _]]]. rewrite Hl, Hi. cbn [is_nil].
+    exact (computed_value_layered _ _ _ _ Hwf Hc).
+  - reflexivity.
 Qed.
 
 Lemma derive_effect sch srcs o :
@@ -366,6 +507,22 @@ Proof.
   - destruct (pre sch srcs src) as [|[|x0 x] [|y t]]; try reflexivity; now apply upd_other.
 Qed.
 
+Lemma post_effect2 sch srcs o :
+  derive_hits sch srcs o = false -> append_hits sch srcs o = false ->
+  apply_append sch (apply_derive sch (pre sch srcs)) o = pre sch srcs o.
+Proof.
+  intros Hd Ha. unfold apply_append, append_hits in *.
+  destruct (appended sch) as [[[cond dst] v]|]; [|now apply derive_effect].
+  destruct (is_false (apply_derive sch (pre sch srcs) cond)); [|now apply derive_effect].
+  rewrite andb_true_r in Ha. rewrite upd_other; [now apply derive_effect|].
+  intros ->. now rewrite opt_eqb_refl in Ha.
+Qed.
+
+Lemma post_effect sch srcs o :
+  post_hits sch srcs o = false ->
+  apply_append sch (apply_derive sch (pre sch srcs)) o = pre sch srcs o.
+Proof. unfold post_hits. intros H. apply orb_false_iff in H as [Hd Ha]. now apply post_effect2. Qed.
+
 Theorem values_partial :
   forall sch fs filenames profiles ovs c,
     wf_schema sch ->
@@ -373,36 +530,32 @@ Theorem values_partial :
     let srcs := sources fs (read_order filenames profiles) in
     forall o, defect_class sch srcs ovs o = None -> c o = spec_value sch o srcs ovs.
 Proof.
-  intros sch fs filenames profiles ovs c Hwf Heff srcs o Hcls.
+  intros sch fs filenames profiles ovs c [_ Hwf] Heff srcs o Hcls.
   apply effective_inv in Heff. fold srcs in Heff. destruct Heff as [Hok ->].
   rewrite fold_override. unfold spec_value, defect_class in *.
   destruct (last_override o ovs) as [v|]; [reflexivity|].
   destruct (derive_hits sch srcs o) eqn:Hd; [discriminate|].
-  rewrite (derive_effect _ _ _ Hd). unfold spec_files.
+  destruct (append_hits sch srcs o) eqn:Hap; [discriminate|].
+  rewrite (post_effect2 _ _ _ Hd Hap). unfold spec_files.
   destruct o as [k n|n].
   - (* single-valued *)
-    rewrite pre_value by exact Hok. cbn zeta.
-    unfold flat. rewrite last_on_concat.
-    assert (Hlate : forall raw, raw <> [] ->
-              match assoc (Single k n) (late sch) with Some d => if is_nil raw then d else raw | None => raw end = raw).
-    { intros raw Hr. destruct (assoc (Single k n) (late sch)); [|reflexivity]. destruct raw; [congruence|reflexivity]. }
     destruct (highest (Single k n) srcs) as [f|] eqn:Hh.
-    + destruct (last_on (Single k n) f) as [a|] eqn:Hl.
-      * apply Hlate. discriminate.
+    + rewrite pre_value by exact Hok. unfold flat. rewrite last_on_concat, Hh.
+      destruct (last_on (Single k n) f) as [a|] eqn:Hl.
+      * apply fill_nonnil. discriminate.
       * unfold highest in Hh. apply find_some in Hh as [_ Hm]. apply last_on_none in Hl. congruence.
-    + reflexivity.
+    + apply pre_not_mentioned; [exact Hwf|]. now apply highest_none.
   - (* repeated *)
     fold (flat srcs). cbn zeta in Hcls.
     destruct (mentions (Multi n) (flat srcs)) eqn:Hm.
-    + rewrite pre_value by exact Hok. cbn zeta.
+    + rewrite pre_value by exact Hok.
       destruct (after_last_blank (Multi n) (flat srcs)) as [suf|] eqn:Hb.
-      * unfold late_of in Hcls. destruct (assoc (Multi n) (late sch)) as [d|]; [|reflexivity].
-        destruct (vals (Multi n) suf) as [|x t]; [|reflexivity].
-        cbn [is_nil andb] in *. destruct d; [reflexivity|discriminate].
+      * destruct (vals (Multi n) suf) as [|x t] eqn:Hv.
+        -- rewrite fill_nil. cbn [is_nil andb] in Hcls.
+           destruct (fallback_of sch srcs (Multi n)); [reflexivity|discriminate].
+        -- apply fill_nonnil. discriminate.
       * destruct (init_cfg sch (Multi n)) as [|x t] eqn:Hi; [|discriminate]. cbn [app].
-        pose proof (vals_nonempty _ _ Hm Hb) as Hne.
-        destruct (assoc (Multi n) (late sch)); [|reflexivity].
-        destruct (vals (Multi n) (flat srcs)); [congruence|reflexivity].
+        apply fill_nonnil. exact (vals_nonempty _ _ Hm Hb).
     + now apply pre_not_mentioned.
 Qed.
 
@@ -411,26 +564,25 @@ Theorem list_defects_real :
   forall sch fs filenames profiles ovs c,
     effective sch fs filenames profiles ovs = Some c ->
     let srcs := sources fs (read_order filenames profiles) in
-    forall o d, defect_class sch srcs ovs o = Some d -> d <> DerivedOverwrite ->
+    forall o d, defect_class sch srcs ovs o = Some d -> d <> DerivedOverwrite -> d <> AliasAppended ->
       c o <> spec_value sch o srcs ovs.
 Proof.
-  intros sch fs filenames profiles ovs c Heff srcs o d Hcls Hd.
+  intros sch fs filenames profiles ovs c Heff srcs o d Hcls Hd Hal.
   apply effective_inv in Heff. fold srcs in Heff. destruct Heff as [Hok ->].
   rewrite fold_override. unfold spec_value, defect_class in *.
   destruct (last_override o ovs) as [v|]; [discriminate|].
   destruct (derive_hits sch srcs o) eqn:Hdh; [congruence|].
-  rewrite (derive_effect _ _ _ Hdh). unfold spec_files.
+  destruct (append_hits sch srcs o) eqn:Hap; [congruence|].
+  rewrite (post_effect2 _ _ _ Hdh Hap). unfold spec_files.
   destruct o as [k n|n]; [discriminate|]. cbn zeta in Hcls. fold (flat srcs).
   destruct (mentions (Multi n) (flat srcs)) eqn:Hm; [|discriminate].
-  rewrite pre_value by exact Hok. cbn zeta.
+  rewrite pre_value by exact Hok.
   destruct (after_last_blank (Multi n) (flat srcs)) as [suf|] eqn:Hb.
-  - unfold late_of in Hcls. destruct (assoc (Multi n) (late sch)) as [dl|];
-      destruct (vals (Multi n) suf); cbn [is_nil andb negb] in *; try discriminate.
-    destruct dl; [discriminate|]. discriminate.
+  - destruct (vals (Multi n) suf); cbn [is_nil andb negb] in Hcls; [|discriminate].
+    rewrite fill_nil. destruct (fallback_of sch srcs (Multi n)); cbn [is_nil negb] in Hcls; discriminate.
   - destruct (init_cfg sch (Multi n)) as [|x t] eqn:Hi; [discriminate|].
-    assert (Hne : (x :: t) ++ vals (Multi n) (flat srcs) <> vals (Multi n) (flat srcs)).
-    { intros E. apply (f_equal (@length _)) in E. rewrite app_length in E. cbn in E. lia. }
-    destruct (assoc (Multi n) (late sch)); cbn [app is_nil]; exact Hne.
+    rewrite fill_nonnil by discriminate.
+    intros E. apply (f_equal (@length _)) in E. rewrite app_length in E. cbn in E. lia.
 Qed.
 
 (* ================================================================================================ *)
@@ -442,7 +594,7 @@ Theorem scalar_highest_priority :
     effective sch fs filenames profiles ovs = Some c ->
     let o := Single k n in
     let srcs := sources fs (read_order filenames profiles) in
-    last_override o ovs = None -> derive_hits sch srcs o = false ->
+    last_override o ovs = None -> post_hits sch srcs o = false ->
     forall lower f higher a,
       srcs = lower ++ f :: higher ->                       (* f is read after `lower`, before `higher` *)
       Forall (fun g => mentions o g = false) higher ->     (* nothing of higher priority sets o *)
@@ -451,13 +603,12 @@ Theorem scalar_highest_priority :
 Proof.
   intros sch fs filenames profiles ovs c k n Heff o srcs Hov Hd lower f higher a Hs Hhi Ha.
   apply effective_inv in Heff. fold srcs in Heff. destruct Heff as [Hok ->].
-  rewrite fold_override, Hov, (derive_effect _ _ _ Hd), pre_value by exact Hok. cbn zeta.
+  rewrite fold_override, Hov, (post_effect _ _ _ Hd), pre_fill. subst o. rewrite raw_single by exact Hok.
   unfold flat. rewrite Hs, concat_app. cbn [concat]. rewrite !last_on_app.
-  assert (Hh : last_on o (concat higher) = None).
+  assert (Hh : last_on (Single k n) (concat higher) = None).
   { apply last_on_none. clear -Hhi. induction Hhi as [|g r Hg _ IH]; [reflexivity|].
     cbn [concat]. unfold mentions in *. now rewrite existsb_app, Hg, IH. }
-  fold o. rewrite Hh, Ha.
-  destruct (assoc o (late sch)); reflexivity.
+  rewrite Hh, Ha. apply fill_nonnil. discriminate.
 Qed.
 
 (* repeated options accumulate across the files in read order *)
@@ -466,18 +617,16 @@ Theorem repeated_accumulate :
     effective sch fs filenames profiles ovs = Some c ->
     let o := Multi n in
     let srcs := sources fs (read_order filenames profiles) in
-    last_override o ovs = None -> derive_hits sch srcs o = false ->
+    last_override o ovs = None -> post_hits sch srcs o = false ->
     after_last_blank o (flat srcs) = None -> mentions o (flat srcs) = true ->
     c o = init_cfg sch o ++ concat (map (vals o) srcs).
 Proof.
   intros sch fs filenames profiles ovs c n Heff o srcs Hov Hd Hb Hm.
   apply effective_inv in Heff. fold srcs in Heff. destruct Heff as [Hok ->].
-  rewrite fold_override, Hov, (derive_effect _ _ _ Hd), pre_value by exact Hok. cbn zeta.
-  fold o. rewrite Hb. unfold flat at 1. rewrite vals_concat.
-  pose proof (vals_nonempty _ _ Hm Hb) as Hne. unfold flat in Hne. rewrite vals_concat in Hne.
-  destruct (assoc o (late sch)); [|reflexivity].
-  destruct (init_cfg sch o ++ concat (map (vals o) srcs)) eqn:E; [|reflexivity].
-  apply app_eq_nil in E as [_ E]. congruence.
+  rewrite fold_override, Hov, (post_effect _ _ _ Hd), pre_fill. subst o. rewrite raw_multi, Hb.
+  pose proof (vals_nonempty _ _ Hm Hb) as Hne.
+  unfold flat in *. rewrite vals_concat in *.
+  apply fill_nonnil. intros E. apply app_eq_nil in E as [_ E]. congruence.
 Qed.
 
 (* a blank value clears everything set before it, in that file and in every file of lower priority *)
@@ -486,7 +635,7 @@ Theorem blank_clears :
     effective sch fs filenames profiles ovs = Some c ->
     let o := Multi n in
     let srcs := sources fs (read_order filenames profiles) in
-    last_override o ovs = None -> derive_hits sch srcs o = false ->
+    last_override o ovs = None -> post_hits sch srcs o = false ->
     forall before after,
       flat srcs = before ++ Blank o :: after ->
       after_last_blank o after = None ->                   (* the last blank reset *)
@@ -495,14 +644,12 @@ Theorem blank_clears :
 Proof.
   intros sch fs filenames profiles ovs c n Heff o srcs Hov Hd before after Hs Hb Hne.
   apply effective_inv in Heff. fold srcs in Heff. destruct Heff as [Hok ->].
-  rewrite fold_override, Hov, (derive_effect _ _ _ Hd), pre_value by exact Hok. cbn zeta.
-  fold o. rewrite Hs.
-  assert (E : after_last_blank o (before ++ Blank o :: after) = Some after).
+  rewrite fold_override, Hov, (post_effect _ _ _ Hd), pre_fill. subst o. rewrite raw_multi, Hs.
+  assert (E : after_last_blank (Multi n) (before ++ Blank (Multi n) :: after) = Some after).
   { clear -Hb. induction before as [|a r IH]; cbn [app after_last_blank].
     - rewrite Hb. unfold on. cbn [a_opt is_blank]. now rewrite opt_eqb_refl.
     - now rewrite IH. }
-  rewrite E. destruct (assoc o (late sch)); [|reflexivity].
-  destruct (vals o after); [congruence|reflexivity].
+  rewrite E. now apply fill_nonnil.
 Qed.
 
 (* a command-line override replaces the whole list / sets the scalar, whatever the files say *)
@@ -516,42 +663,192 @@ Proof.
   apply effective_inv in Heff. destruct Heff as [_ ->]. now rewrite fold_override, Hov.
 Qed.
 
-(* documented defaults apply to options that no source sets *)
+(* defaults - documented literals, setDefault values and computed defaults alike - apply to options that no source sets *)
 Theorem default_when_unset :
   forall sch fs filenames profiles ovs c o,
+    wf_schema sch ->
     effective sch fs filenames profiles ovs = Some c ->
     let srcs := sources fs (read_order filenames profiles) in
-    last_override o ovs = None -> derive_hits sch srcs o = false ->
+    last_override o ovs = None -> post_hits sch srcs o = false ->
     mentions o (flat srcs) = false ->
-    c o = documented_default sch o.
+    c o = default_of sch srcs o.
 Proof.
-  intros sch fs filenames profiles ovs c o Heff srcs Hov Hd Hm.
+  intros sch fs filenames profiles ovs c o [_ Hwf] Heff srcs Hov Hd Hm.
   apply effective_inv in Heff. fold srcs in Heff. destruct Heff as [Hok ->].
-  now rewrite fold_override, Hov, (derive_effect _ _ _ Hd), pre_not_mentioned.
+  now rewrite fold_override, Hov, (post_effect _ _ _ Hd), pre_not_mentioned.
 Qed.
 
 (* ... and what the code does for "set, then blank-reset as the last word": the default comes back *)
 Theorem blank_last_restores_default :
-  forall sch fs filenames profiles ovs c n d,
+  forall sch fs filenames profiles ovs c n,
     effective sch fs filenames profiles ovs = Some c ->
     let o := Multi n in
     let srcs := sources fs (read_order filenames profiles) in
-    last_override o ovs = None -> derive_hits sch srcs o = false ->
+    last_override o ovs = None -> post_hits sch srcs o = false ->
     forall before after,
       flat srcs = before ++ Blank o :: after -> mentions o after = false ->
-      assoc o (late sch) = Some d ->
-      c o = d.
+      c o = fallback_of sch srcs o.
 Proof.
-  intros sch fs filenames profiles ovs c n d Heff o srcs Hov Hd before after Hs Hm Hl.
+  intros sch fs filenames profiles ovs c n Heff o srcs Hov Hd before after Hs Hm.
   apply effective_inv in Heff. fold srcs in Heff. destruct Heff as [Hok ->].
-  rewrite fold_override, Hov, (derive_effect _ _ _ Hd), pre_value by exact Hok. cbn zeta.
-  fold o. rewrite Hs, Hl.
-  assert (E : after_last_blank o (before ++ Blank o :: after) = Some after).
+  rewrite fold_override, Hov, (post_effect _ _ _ Hd), pre_fill. subst o. rewrite raw_multi, Hs.
+  assert (E : after_last_blank (Multi n) (before ++ Blank (Multi n) :: after) = Some after).
   { pose proof (after_last_blank_none_not_mentioned _ _ Hm) as Hb. clear -Hb.
     induction before as [|a r IH]; cbn [app after_last_blank].
     - rewrite Hb. unfold on. cbn [a_opt is_blank]. now rewrite opt_eqb_refl.
     - now rewrite IH. }
-  rewrite E, (vals_not_mentioned _ _ Hm). reflexivity.
+  rewrite E, (vals_not_mentioned _ _ Hm). apply fill_nil.
+Qed.
+
+(* ================================================================================================ *)
+(* 5b. Computed defaults (setBuildPath)                                                              *)
+
+(* An option the files leave non-empty NEVER gets a default - neither a setDefault value nor a computed one -
+   whatever the trigger options and the environment of the caller say. *)
+Theorem explicit_beats_default :
+  forall sch fs filenames profiles ovs c n,
+    effective sch fs filenames profiles ovs = Some c ->
+    let o := Multi n in
+    let srcs := sources fs (read_order filenames profiles) in
+    last_override o ovs = None -> post_hits sch srcs o = false ->
+    accumulated o srcs <> [] ->
+    c o = (match after_last_blank o (flat srcs) with Some _ => [] | None => init_cfg sch o end) ++ accumulated o srcs.
+Proof.
+  intros sch fs filenames profiles ovs c n Heff o srcs Hov Hd Hne.
+  apply effective_inv in Heff. fold srcs in Heff. destruct Heff as [Hok ->].
+  rewrite fold_override, Hov, (post_effect _ _ _ Hd), pre_fill. subst o. rewrite raw_multi.
+  unfold accumulated, accumulated_l in *. fold (flat srcs) in *.
+  destruct (after_last_blank (Multi n) (flat srcs)); cbn [app].
+  - now apply fill_nonnil.
+  - apply fill_nonnil. intros E. apply app_eq_nil in E as [_ E]. congruence.
+Qed.
+
+Definition no_blank_on (o : opt) (l : list assignment) : bool :=
+  forallb (fun a => negb (on o a && is_blank a)) l.
+
+Lemma after_last_blank_none_iff o l : after_last_blank o l = None <-> no_blank_on o l = true.
+Proof.
+  induction l as [|a r IH]; cbn [after_last_blank no_blank_on forallb]; [tauto|].
+  fold (no_blank_on o r). destruct (after_last_blank o r) as [suf|].
+  - split; [discriminate|]. intros H. apply andb_true_iff in H as [_ H]. apply IH in H. discriminate.
+  - destruct IH as [IH _]. rewrite (IH eq_refl), andb_true_r.
+    destruct (on o a && is_blank a); cbn [negb]; split; congruence.
+Qed.
+
+Lemma accumulated_cons o a r :
+  accumulated_l o (a :: r) =
+    if no_blank_on o r
+    then (if on o a && is_blank a then [] else vals o [a]) ++ accumulated_l o r
+    else accumulated_l o r.
+Proof.
+  unfold accumulated_l. cbn [after_last_blank].
+  destruct (after_last_blank o r) as [suf|] eqn:Hb.
+  - assert (Hn : no_blank_on o r = false).
+    { destruct (no_blank_on o r) eqn:E; [|reflexivity]. apply after_last_blank_none_iff in E. congruence. }
+    now rewrite Hn.
+  - rewrite (proj1 (after_last_blank_none_iff o r) Hb).
+    destruct (on o a && is_blank a); [reflexivity|].
+    change (a :: r) with ([a] ++ r). now rewrite vals_app.
+Qed.
+
+Lemma mem_app v l1 l2 : mem v (l1 ++ l2) = mem v l1 || mem v l2.
+Proof. unfold mem. apply existsb_app. Qed.
+
+(* INDUCTION OVER THE ASSIGNMENT STREAM: an element is in the accumulated value of a repeated option iff some
+   assignment of exactly that element is not followed by a blank reset of the option. *)
+Theorem mem_accumulated_iff :
+  forall n v l,
+    mem v (accumulated_l (Multi n) l) = true <->
+    exists before after, l = before ++ Assign (Multi n) v :: after /\ no_blank_on (Multi n) after = true.
+Proof.
+  intros n v l. set (o := Multi n). split.
+  - induction l as [|a r IH]; [discriminate|].
+    rewrite accumulated_cons. destruct (no_blank_on o r) eqn:Hnb.
+    + rewrite mem_app. intros H. apply orb_true_iff in H as [H|H].
+      * destruct (on o a && is_blank a); [discriminate|].
+        destruct a as [o' v'|o']; cbn [vals flat_map app] in H; [|discriminate].
+        destruct (opt_eqb_spec o' o) as [->|]; [|discriminate].
+        cbn [app] in H. unfold mem in H. cbn [existsb] in H. rewrite orb_false_r in H.
+        destruct (str_eqb_spec v v') as [->|]; [|discriminate].
+        exists [], r. split; [reflexivity|exact Hnb].
+      * destruct (IH H) as [b [af [-> Haf]]]. exists (a :: b), af. split; [reflexivity|exact Haf].
+    + intros H. destruct (IH H) as [b [af [-> Haf]]]. exists (a :: b), af. split; [reflexivity|exact Haf].
+  - intros [b [af [-> Haf]]]. induction b as [|a r IH]; cbn [app].
+    + rewrite accumulated_cons, Haf. unfold on. cbn [a_opt is_blank andb]. rewrite andb_false_r.
+      cbn [vals flat_map app]. fold o. rewrite opt_eqb_refl. cbn [app mem existsb].
+      destruct (str_eqb_spec v v); [reflexivity|congruence].
+    + rewrite accumulated_cons. destruct (no_blank_on o (r ++ Assign o v :: af)); [|exact IH].
+      rewrite mem_app, IH. apply orb_true_r.
+Qed.
+
+(* the value of a computed default is the split environment variable or the fallback, nothing else *)
+Lemma computed_value_cases sch look cd :
+  (triggered look cd = true /\ computed_value sch look cd = split_on (cd_sep cd) (getenv sch (cd_var cd)))
+  \/ (triggered look cd = false /\ computed_value sch look cd = cd_fallback cd).
+Proof. unfold computed_value. destruct (triggered look cd); [left|right]; split; reflexivity. Qed.
+
+(* Source-level form of the computed default: an option with a computed default that no source sets gets
+   the environment variable of the caller, split, iff SOME source lists the trigger element in a trigger option
+   and no later blank reset clears it; otherwise the documented fallback. *)
+Theorem computed_default_source_level :
+  forall sch fs filenames profiles ovs c o cd,
+    wf_schema sch ->
+    effective sch fs filenames profiles ovs = Some c ->
+    let srcs := sources fs (read_order filenames profiles) in
+    last_override o ovs = None -> post_hits sch srcs o = false ->
+    assoc o (computed sch) = Some cd ->
+    mentions o (flat srcs) = false ->
+    ((exists t before after, In t (cd_triggers cd) /\
+        flat srcs = before ++ Assign (fst t) (snd t) :: after /\ no_blank_on (fst t) after = true)
+     /\ c o = split_on (cd_sep cd) (getenv sch (cd_var cd)))
+    \/
+    ((forall t before after, In t (cd_triggers cd) ->
+        flat srcs = before ++ Assign (fst t) (snd t) :: after -> no_blank_on (fst t) after = false)
+     /\ c o = cd_fallback cd).
+Proof.
+  intros sch fs filenames profiles ovs c o cd Hwf Heff srcs Hov Hd Hc Hm.
+  rewrite (default_when_unset _ _ _ _ _ _ _ Hwf Heff Hov Hd Hm). fold srcs. unfold default_of. rewrite Hc.
+  destruct Hwf as [_ Hwf]. destruct (wf_computed_entry _ _ _ Hwf Hc) as [_ [_ [_ Ht]]].
+  destruct (computed_value_cases sch (layered srcs) cd) as [[Htr ->]|[Htr ->]]; [left|right]; (split; [|reflexivity]).
+  - unfold triggered in Htr. apply existsb_exists in Htr as [t [Hin Hmem]].
+    destruct (Ht _ Hin) as [Hmu _]. destruct t as [[k n|n] v]; [discriminate|]. cbn [fst snd] in *.
+    unfold layered, accumulated in Hmem. apply mem_accumulated_iff in Hmem as [b [af [E Haf]]].
+    exists (Multi n, v), b, af. repeat split; assumption.
+  - intros t b af Hin E. destruct (Ht _ Hin) as [Hmu _]. destruct t as [[k n|n] v]; [discriminate|]. cbn [fst snd] in *.
+    destruct (no_blank_on (Multi n) af) eqn:Haf; [|reflexivity]. exfalso.
+    assert (Hmem : mem v (layered srcs (Multi n)) = true).
+    { unfold layered, accumulated. apply mem_accumulated_iff. exists b, af. split; assumption. }
+    assert (Htr' : triggered (layered srcs) cd = true).
+    { unfold triggered. apply existsb_exists. exists (Multi n, v). split; assumption. }
+    congruence.
+Qed.
+
+(* The environment of the caller reaches an option only through a computed default that is actually applied:
+   two runs that differ in nothing but the environment agree on every option that has no computed default or that
+   the files leave non-empty (and that is not computed from another option afterwards). *)
+Definition same_tables (s1 s2 : schema) : Prop :=
+  init s1 = init s2 /\ late s1 = late s2 /\ derive s1 = derive s2 /\ computed s1 = computed s2 /\ appended s1 = appended s2.
+
+Theorem environment_only_reaches_unset_computed :
+  forall s1 s2 fs filenames profiles ovs c1 c2 o,
+    same_tables s1 s2 ->
+    effective s1 fs filenames profiles ovs = Some c1 ->
+    effective s2 fs filenames profiles ovs = Some c2 ->
+    let srcs := sources fs (read_order filenames profiles) in
+    post_hits s1 srcs o = false -> post_hits s2 srcs o = false ->
+    assoc o (computed s1) = None \/ rawcfg s1 srcs o <> [] ->
+    c1 o = c2 o.
+Proof.
+  intros s1 s2 fs filenames profiles ovs c1 c2 o [Hi [Hl [_ [Hc _]]]] H1 H2 srcs Hp1 Hp2 Hor.
+  apply effective_inv in H1. apply effective_inv in H2. fold srcs in H1, H2.
+  destruct H1 as [_ ->]. destruct H2 as [_ ->].
+  rewrite !fold_override. destruct (last_override o ovs); [reflexivity|].
+  rewrite (post_effect _ _ _ Hp1), (post_effect _ _ _ Hp2), !pre_fill.
+  assert (Hraw : rawcfg s1 srcs = rawcfg s2 srcs).
+  { unfold rawcfg, init_cfg. now rewrite Hi. }
+  rewrite <- Hraw. destruct Hor as [Hn|Hne].
+  - unfold fill. rewrite <- Hl, <- Hc, Hn. reflexivity.
+  - now rewrite !fill_nonnil.
 Qed.
 
 (* ================================================================================================ *)
@@ -657,6 +954,33 @@ Definition opt_name (o : opt) : str := match o with Single _ n => n | Multi n =>
 
 Definition vals_opt_eqb := option_eqb (list_eqb str_eqb).
 
+Fixpoint forall2b {A B} (p : A -> B -> bool) (a : list A) (b : list B) : bool :=
+  match a, b with
+  | [], [] => true
+  | x :: a', y :: b' => p x y && forall2b p a' b'
+  | _, _ => false
+  end.
+
+(* the computed defaults of the schema are the translated body of setBuildPath at its call site *)
+Definition computed_matches_gen (sch : schema) : bool :=
+  forall2b (fun (a : opt * cdefault) (g : string * list (string * string) * string * string * list string) =>
+      match g with
+      | (gt, gtr, gv, gsep, gfb) =>
+          str_eqb (opt_name (fst a)) (s gt) && is_multi (fst a)
+          && forall2b (fun (x : opt * str) (y : string * string) =>
+                         str_eqb (opt_name (fst x)) (s (fst y)) && is_multi (fst x) && str_eqb (snd x) (s (snd y)))
+                      (cd_triggers (snd a)) gtr
+          && str_eqb (cd_var (snd a)) (s gv) && N.eqb (cd_sep (snd a)) (sep_code gsep)
+          && list_eqb str_eqb (cd_fallback (snd a)) (map s gfb)
+      end) (computed sch) computed_defaults.
+
+Definition appended_matches_gen (sch : schema) : bool :=
+  match appended sch, appended_options with
+  | Some (Single SBool c, Multi d, v), [(gc, gd, gv)] => str_eqb c (s gc) && str_eqb d (s gd) && str_eqb v (s gv)
+  | None, [] => true
+  | _, _ => false
+  end.
+
 Definition schema_matches_gen (sch : schema) (os : list opt) : bool :=
   forallb (fun o =>
     vals_opt_eqb (assoc o (late sch)) (gen_late (opt_name o))
@@ -675,13 +999,21 @@ Definition schema_matches_gen (sch : schema) (os : list opt) : bool :=
          && list_eqb str_eqb (map s parts) [s "bin"; s "go"]
      | None, [] => true
      | _, _ => false
-     end.
+     end
+  && computed_matches_gen sch && appended_matches_gen sch.
 
-Lemma real_schema_matches_source : schema_matches_gen real_schema sampled = true.
-Proof. vm_compute. reflexivity. Qed.
+Lemma real_schema_matches_source : forall p, schema_matches_gen (real_schema_at p) sampled = true.
+Proof. intros p. vm_compute. reflexivity. Qed.
+
+(* os.Getenv("PATH") is the PATH the schema was built for *)
+Lemma real_getenv_path : forall p, getenv (real_schema_at p) (s "PATH") = p.
+Proof. intros p. reflexivity. Qed.
+
+Lemma real_schema_at_wf : forall p, wf_schema (real_schema_at p).
+Proof. intros p. split; [vm_compute; repeat split; congruence|vm_compute; reflexivity]. Qed.
 
 Lemma real_schema_wf : wf_schema real_schema.
-Proof. vm_compute. repeat split; congruence. Qed.
+Proof. exact (real_schema_at_wf _). Qed.
 
 (* ================================================================================================ *)
 (* 7. Refutation witnesses (the unchanged code, through the faithful model)                          *)
@@ -699,6 +1031,18 @@ Definition w_preset : fsys := [(s "/r/.plzconfig", [Assign o_maven (s "https://a
 (* .plzconfig: goroot = /usr/lib/go ; .plzconfig.local: gotool = /usr/bin/go *)
 Definition w_derived : fsys :=
   [(s "/r/.plzconfig", [Assign o_goroot (s "/usr/lib/go")]); (s "/r/.plzconfig.local", [Assign o_gotool (s "/usr/bin/go")])].
+
+(* .plzconfig: [cpp] coverage = false ; [test] disablecoverage = slow *)
+Definition w_alias : fsys :=
+  [(s "/r/.plzconfig", [Assign o_cppcov (s "false"); Assign o_discov (s "slow")])].
+(* .plzconfig: [build] passenv = PATH ; .plzconfig.local: [build] path = /opt/tools/bin *)
+Definition w_path_set : fsys :=
+  [(s "/r/.plzconfig", [Assign o_passenv (s "PATH")]); (s "/r/.plzconfig.local", [Assign o_path (s "/opt/tools/bin")])].
+(* .plzconfig: [build] passunsafeenv = PATH *)
+Definition w_path_unset : fsys := [(s "/r/.plzconfig", [Assign o_passunsafeenv (s "PATH")])].
+(* .plzconfig: [build] passenv = PATH ; .plzconfig.local: [build] passenv (blank) ; passenv = HOME *)
+Definition w_path_cleared : fsys :=
+  [(s "/r/.plzconfig", [Assign o_passenv (s "PATH")]); (s "/r/.plzconfig.local", [Blank o_passenv; Assign o_passenv (s "HOME")])].
 
 Definition run_default (fs : fsys) : option cfg := effective real_schema fs (default_files root_env) [] [].
 Definition srcs_default (fs : fsys) : list file := sources fs (read_order (default_files root_env) []).
@@ -726,6 +1070,23 @@ Lemma witness_derived :
   value_at (run_default w_derived) o_gotool = Some [s "/usr/lib/go/bin/go"]
   /\ spec_value real_schema o_gotool (srcs_default w_derived) [] = [s "/usr/bin/go"]
   /\ defect_class real_schema (srcs_default w_derived) [] o_gotool = Some DerivedOverwrite.
+Proof. vm_compute. repeat split. Qed.
+
+Lemma witness_alias :
+  value_at (run_default w_alias) o_discov = Some [s "slow"; s "cc"]
+  /\ spec_value real_schema o_discov (srcs_default w_alias) [] = [s "slow"]
+  /\ defect_class real_schema (srcs_default w_alias) [] o_discov = Some AliasAppended.
+Proof. vm_compute. repeat split. Qed.
+
+(* computed default: an explicit build.path wins over $PATH; $PATH only when no source sets build.path and PATH is
+   (still) passed through; the documented fallback otherwise *)
+Lemma computed_examples :
+  value_at (run_default w_path_set) o_path = Some [s "/opt/tools/bin"]
+  /\ defect_class real_schema (srcs_default w_path_set) [] o_path = None
+  /\ value_at (run_default w_path_unset) o_path = Some [s "/caller/bin"; s "/usr/bin"]
+  /\ defect_class real_schema (srcs_default w_path_unset) [] o_path = None
+  /\ value_at (run_default w_path_cleared) o_path = Some [s "/usr/local/bin"; s "/usr/bin"; s "/bin"]
+  /\ defect_class real_schema (srcs_default w_path_cleared) [] o_path = None.
 Proof. vm_compute. repeat split. Qed.
 
 Lemma full_value_clause_false :
